@@ -290,7 +290,19 @@ func c15TableUseEscapes(ref ssa.Instruction, v ssa.Value) string {
 		}
 		return ""
 	case *ssa.Slice:
-		return "table re-sliced"
+		// a local window onto the table: harmless as long as the window itself stays local (stores through it are
+		// seen by the element-store clause, which looks at every store of the function)
+		if x.X != v {
+			return "table used as a slice bound"
+		}
+		if refs := x.Referrers(); refs != nil {
+			for _, r2 := range *refs {
+				if why := c15TableUseEscapes(r2, x); why != "" {
+					return "re-sliced table: " + why
+				}
+			}
+		}
+		return ""
 	case *ssa.Phi:
 		return "table flows into a phi"
 	}
